@@ -1,6 +1,214 @@
-"""placeholder; replaced below"""
-def parse_model(b):
-    from ethosu.vela.tflite import Model
-    m = Model.Model.GetRootAsModel(bytearray(b), 0)
-    assert m.SubgraphsLength() >= 1
-    return m
+"""Plain readers of what the compiler emits: the output flatbuffer, the driver payload and the
+register command stream.  Independent of tflite_reader/tflite_writer and of the command-stream
+emitter; uses the flatbuffers runtime, the generated accessor classes, and a snapshot of the Ethos-U
+opcode table (harness/regs_table.json, hardware facts pinned at design time)."""
+import json
+import os
+import struct
+
+import numpy as np
+
+from .common import ensure_repo_on_path
+
+ensure_repo_on_path()
+from ethosu.vela.tflite import Model as _Model  # noqa: E402
+
+_T = json.load(open(os.path.join(os.path.dirname(__file__), "regs_table.json")))
+CMD0 = {int(k): v for k, v in _T["cmd0"].items()}
+CMD1 = {int(k): v for k, v in _T["cmd1"].items()}
+CMD0_CODE = {v: k for k, v in CMD0.items()}
+CMD1_CODE = {v: k for k, v in CMD1.items()}
+
+TYPE_SIZE = {0: 4, 1: 2, 2: 4, 3: 1, 4: 8, 5: None, 6: 1, 7: 2, 8: 8, 9: 1, 10: 8, 11: 16, 12: 8, 13: None, 14: None,
+             15: 4, 16: 2, 17: 1}
+TYPE_NAME = {0: "FLOAT32", 1: "FLOAT16", 2: "INT32", 3: "UINT8", 4: "INT64", 5: "STRING", 6: "BOOL", 7: "INT16",
+             8: "COMPLEX64", 9: "INT8", 10: "FLOAT64", 15: "UINT32", 16: "UINT16", 17: "INT4"}
+
+
+class ParseError(Exception):
+    pass
+
+
+def parse_model(data):
+    """bytes -> dict describing the model (first subgraph; Vela writes exactly one)."""
+    buf = bytearray(data)
+    if len(buf) < 8 or bytes(buf[4:8]) != b"TFL3":
+        raise ParseError("not a TFL3 flatbuffer")
+    m = _Model.Model.GetRootAsModel(buf, 0)
+    if m.SubgraphsLength() < 1:
+        raise ParseError("no subgraph")
+    sg = m.Subgraphs(0)
+
+    def bufbytes(i):
+        b = m.Buffers(i)
+        n = b.DataLength()
+        return b.DataAsNumpy().tobytes() if n else b""
+
+    tensors = []
+    for i in range(sg.TensorsLength()):
+        t = sg.Tensors(i)
+        shape = [int(t.Shape(j)) for j in range(t.ShapeLength())]
+        q = t.Quantization()
+        quant = None
+        if q is not None:
+            quant = {"scale": [float(q.Scale(j)) for j in range(q.ScaleLength())],
+                     "zp": [int(q.ZeroPoint(j)) for j in range(q.ZeroPointLength())], "qdim": q.QuantizedDimension()}
+        nbuf = m.Buffers(t.Buffer()).DataLength()
+        n = 1
+        for d in shape:
+            n *= d
+        tensors.append({"i": i, "name": (t.Name() or b"").decode(), "shape": shape, "type": int(t.Type()),
+                        "buffer": int(t.Buffer()), "const_len": int(nbuf), "quant": quant,
+                        "size": n * (TYPE_SIZE.get(int(t.Type())) or 0), "is_variable": bool(t.IsVariable())})
+    ops = []
+    for k in range(sg.OperatorsLength()):
+        o = sg.Operators(k)
+        oc = m.OperatorCodes(o.OpcodeIndex())
+        code = max(int(oc.BuiltinCode()), int(oc.DeprecatedBuiltinCode()))
+        cc = oc.CustomCode()
+        ops.append({"k": k, "code": code, "custom": cc.decode() if cc else None, "version": int(oc.Version()),
+                    "inputs": [int(o.Inputs(j)) for j in range(o.InputsLength())],
+                    "outputs": [int(o.Outputs(j)) for j in range(o.OutputsLength())]})
+    meta = {}
+    for i in range(m.MetadataLength()):
+        md = m.Metadata(i)
+        meta[(md.Name() or b"").decode()] = bufbytes(md.Buffer())
+    out = {"tensors": tensors, "ops": ops,
+           "inputs": [int(sg.Inputs(i)) for i in range(sg.InputsLength())],
+           "outputs": [int(sg.Outputs(i)) for i in range(sg.OutputsLength())],
+           "metadata": meta, "n_subgraphs": m.SubgraphsLength(), "description": (m.Description() or b"").decode(),
+           "_buf": bufbytes}
+    oma = meta.get("OfflineMemoryAllocation")
+    if oma is not None:
+        arr = np.frombuffer(oma, dtype=np.int32)
+        out["offline"] = {"version": int(arr[0]), "n_subgraphs": int(arr[1]), "n_tensors": int(arr[2]),
+                          "offsets": [int(v) for v in arr[3:]]}
+    return out
+
+
+def ethosu_ops(model):
+    """Custom 'ethos-u' operators with their payload, flash bytes and scratch extents."""
+    res = []
+    for o in model["ops"]:
+        if o["custom"] != "ethos-u":
+            continue
+        ins = o["inputs"]
+        T = model["tensors"]
+        cs = model["_buf"](T[ins[0]]["buffer"])
+        flash = model["_buf"](T[ins[1]]["buffer"])
+        res.append({"k": o["k"], "payload": cs, "flash": flash, "flash_len": T[ins[1]]["size"],
+                    "flash_tensor": ins[1], "scratch_tensor": ins[2], "scratch_fast_tensor": ins[3],
+                    "scratch_len": T[ins[2]]["size"], "scratch_fast_len": T[ins[3]]["size"],
+                    "inputs": ins[4:], "outputs": o["outputs"]})
+    return res
+
+
+# ------------------------------------------------------------------ driver payload
+DA_CONFIG, DA_CMDSTREAM, DA_NOP = 1, 2, 5
+
+
+def parse_payload(payload):
+    """bytes -> {fourcc, config (tag, config word, id word), nops, header_index, declared_len, words}"""
+    if len(payload) % 4:
+        raise ParseError("payload length not a multiple of 4")
+    w = struct.unpack("<%dI" % (len(payload) // 4), payload)
+    if not w or w[0] != 0x31504F43:
+        raise ParseError("no COP1 tag")
+    i = 1
+    res = {"fourcc": w[0], "nops": 0, "config": None}
+    while i < len(w):
+        tag = w[i] & 0xFF
+        if tag == DA_CONFIG:
+            res["config"] = (w[i], w[i + 1], w[i + 2])
+            i += 3
+        elif tag == DA_NOP:
+            res["nops"] += 1
+            i += 1
+        elif tag == DA_CMDSTREAM:
+            n = (((w[i] >> 8) & 0xFF) << 16) | (w[i] >> 16)
+            res["header_index"] = i
+            res["declared_len"] = n
+            res["words"] = list(w[i + 1:])
+            return res
+        else:
+            raise ParseError("unknown driver action %d at word %d" % (tag, i))
+    raise ParseError("no command stream header")
+
+
+# ------------------------------------------------------------------ register command stream
+KERNEL_OPS = {"NPU_OP_CONV": "conv", "NPU_OP_DEPTHWISE": "dw", "NPU_OP_POOL": "pool", "NPU_OP_ELEMENTWISE": "ew"}
+
+
+def decode(words):
+    """words -> list of events, tracking register state (A-HW5):
+       ("set", name, value, is_dma_bank) / ("wait", "kernel"|"dma", n) / ("op", kind, param, regs, index) /
+       ("stop", param) / ("unknown", word).  value of a cmd1 register = (param << 32) | payload."""
+    ev = []
+    regs = {}
+    k = 0
+    nop = 0
+    n = len(words)
+    while k < n:
+        w = words[k]
+        code = w & 0xFFFF
+        param = w >> 16
+        if code & 0x4000:
+            name = CMD1.get(code & 0x3FF)
+            if k + 1 >= n:
+                ev.append(("unknown", w))
+                break
+            if name is None or (code & 0x8000):
+                ev.append(("unknown", w))
+            else:
+                val = (param << 32) | words[k + 1]
+                regs[name] = val
+                ev.append(("set", name, val))
+            k += 2
+            continue
+        name = CMD0.get(code & 0x3FF)
+        k += 1
+        if name is None or (code & 0xBC00):
+            ev.append(("unknown", w))
+        elif name == "NPU_OP_KERNEL_WAIT":
+            ev.append(("wait", "kernel", param))
+        elif name == "NPU_OP_DMA_WAIT":
+            ev.append(("wait", "dma", param))
+        elif name == "NPU_OP_STOP":
+            ev.append(("stop", param))
+        elif name in KERNEL_OPS:
+            ev.append(("op", KERNEL_OPS[name], param, dict(regs), nop))
+            nop += 1
+        elif name == "NPU_OP_DMA_START":
+            ev.append(("op", "dma", param, dict(regs), nop))
+            nop += 1
+        elif name.startswith("NPU_OP_"):
+            ev.append(("otherop", name, param))
+        else:
+            regs[name] = param
+            ev.append(("set", name, param))
+    return ev
+
+
+def ops_with_waits(events):
+    """-> list of {"kind","param","regs","waits":[(queue,n)...]} in program order, waits = those emitted since the
+    previous operation."""
+    out = []
+    waits = []
+    for e in events:
+        if e[0] == "wait":
+            waits.append((e[1], e[2]))
+        elif e[0] == "op":
+            out.append({"kind": e[1], "param": e[2], "regs": e[3], "waits": waits, "index": e[4]})
+            waits = []
+    return out
+
+
+def accel_from_config_word(cfg):
+    """config word of the driver payload -> accelerator name (table written from the Ethos-U CONFIG register layout:
+    macs_per_cc log2 in bits 0-3, cmd_stream_version 4-7, shram_size 8-15, product 28-31)."""
+    macs = cfg & 0xF
+    shram = (cfg >> 8) & 0xFF
+    product = (cfg >> 28) & 0xF
+    table = {(0, 5, 16): "ethos-u55-32", (0, 6, 16): "ethos-u55-64", (0, 7, 24): "ethos-u55-128",
+             (0, 8, 48): "ethos-u55-256", (1, 8, 48): "ethos-u65-256", (1, 9, 96): "ethos-u65-512"}
+    return table.get((product, macs, shram))
